@@ -64,11 +64,14 @@ enum Layout {
     C,
     F,
     Strided,
+    /// rows stored back to front behind a negative row stride
+    RowsReversed,
 }
 fn pick_layout(rng: &mut Rng) -> Layout {
-    match rng.gen_range(0..4) {
+    match rng.gen_range(0..5) {
         0 => Layout::F,
         1 => Layout::Strided,
+        2 => Layout::RowsReversed,
         _ => Layout::C,
     }
 }
@@ -534,6 +537,11 @@ macro_rules! with_view {
                 let $view: ArrayView2<$F> = st.slice(s![1..;2, 1..p + 1]);
                 $body
             }
+            Layout::RowsReversed => {
+                let st = Array2::<$F>::from_shape_fn((n, p), |(i, j)| xf[[n - 1 - i, j]]);
+                let $view: ArrayView2<$F> = st.slice(s![..;-1, ..]);
+                $body
+            }
         }
     }};
 }
@@ -862,12 +870,14 @@ fn layout_code(l: Layout) -> u8 {
         Layout::C => 0,
         Layout::F => 1,
         Layout::Strided => 2,
+        Layout::RowsReversed => 3,
     }
 }
 fn layout_from(c: u8) -> Layout {
     match c {
         1 => Layout::F,
         2 => Layout::Strided,
+        3 => Layout::RowsReversed,
         _ => Layout::C,
     }
 }
